@@ -70,7 +70,8 @@ theorem pack_roundtrip (w r : L) (h : agrees w r = true)
   agree_roundtrip valueRT w r h E pfx x rest hwf
 
 /-- **re-encoding is byte-identical**: serialising the fields the reader delivered reproduces exactly
-    the bytes that were read -/
+    the bytes that were read.  `w.known`: the writer has no section whose marker byte the decoded fields
+    do not determine — true of every covered type but CounterPack1 (`C03Gen.covered_known`). -/
 theorem pack_reencode (w r : L) (h : agrees w r = true) (hk : w.known = true)
     (E : Env) (pfx : String) (x : Rec) (rest : Bytes) (hwf : w.WF valueRT E pfx x) :
     ∃ o E', r.read pfx E (w.write E pfx x ++ rest) = some (o, E', rest) ∧
@@ -161,7 +162,8 @@ theorem stamp_only_identity (h : Hdr) (k : String) (v : Val)
     (hk : k ≠ "Pcode" ∧ k ≠ "Oid" ∧ k ≠ "Okind" ∧ k ≠ "Onode") : stampField h (k, v) = (k, v) := by
   simp [stampField, hk.1, hk.2.1, hk.2.2.1, hk.2.2.2]
 
-/-- CompositePack (one level of nesting; deeper nesting is exercised by the harness) -/
+/-- CompositePack, one level (any depth: `composite_tree_roundtrip` below).  `ps.length ≤ 32767`: the
+    count travels as a signed 16-bit field; beyond it `Read` sees a negative count and returns no pack. -/
 theorem composite_roundtrip (fac : Factory) (h : Hdr) (ps : List PV) (rest : Bytes)
     (hh : h.WF) (hn : ps.length ≤ 32767) (hp : ∀ p ∈ ps, p.ok valueRT fac) :
     readComposite fac (writeComposite h ps ++ rest) = some ((h, ps.map PV.carried), rest) :=
@@ -183,8 +185,14 @@ theorem records_roundtrip (bw br : L) (h : agrees (recordsW bw) (recordsW br) = 
 
 /-! ### bounded tables inside packs (StatRemoteIpPack.IpTable ≤ 10000, StatUserAgentPack.UserAgents ≤ 500) -/
 
-/-- a decoded pack carries of a wire table (distinct keys) put row by row into a table bounded by `max`
-    exactly its last `max` rows, in order — the oldest rows are evicted -/
+/-- **a decoded pack carries of a wire table (pairwise distinct keys: what a table writes) put row by row
+    (`Put`: an existing key is updated in place, a new key evicts the oldest row when the table is full)
+    into a table bounded by `max` exactly its last `max` rows, in order**.  `1 ≤ max` is the code's own
+    test (`if this.max > 0`: 0 means unbounded). -/
+theorem bounded_table_keyed [BEq κ] [LawfulBEq κ] (max : Nat) (h : 1 ≤ max) (rows : List (κ × β))
+    (hd : (rows.map (·.1)).Nodup) : rows.foldl (putK max) [] = capRows max rows := foldl_putK max h rows hd
+
+/-- the same for rows treated as all new (no key comparison) -/
 theorem bounded_table_keeps_last (max : Nat) (h : 1 ≤ max) (rows : List α) :
     rows.foldl (capPut max) [] = capRows max rows := foldl_capPut max h rows
 
@@ -214,23 +222,26 @@ theorem profile_roundtrip (h : Hdr) (x : Step.Rec) (rest : Bytes) (hh : h.WF)
 /-- `strconv.Atoi (fmt.Sprintf "%d" v) = v` on the digit model -/
 theorem decimal_text_roundtrip (v : Int) : Event.atoi (Event.itoa v) = some v := Event.atoi_itoa v
 
-/-- folding the four fields into the table (`Write`) and taking them out again (`Read`, with the
-    proposed fix for D21) gives back every field and the user attributes, in order, for every table
-    that does not itself use the four reserved keys -/
+/-- folding the four fields into the table (`Write`) and taking them out again (`Read`, as it is since
+    the fix for D21; `EF`/`EU` driver lines tie both to the Go code) gives back every field and the user
+    attributes, in order, for every table that does not itself use the four reserved keys -/
 theorem event_folding_roundtrip (e : Event.Ev) (h : Event.noReserved e.attrs) :
     Event.unfold (Event.fold e) = e := Event.unfold_fold e h
 
-/-- witness (D21): the reader as found returns Status 0 for Status 5 (and Otype 0 for Otype 7) -/
+/-- historical witness (D21, fixed in the code since): the reader as first found returned Status 0 for
+    Status 5 (and Otype 0 for Otype 7) -/
 theorem finding_D21 :
     Event.unfoldAsFound (Event.fold ⟨[], false, 5, 7, []⟩) ≠ ⟨[], false, 5, 7, []⟩ := Event.finding_D21
 
 example : Event.noReserved [([97], [98]), ([], [])] := by
   intro p hp; simp at hp; rcases hp with rfl | rfl <;> decide
 
-/-! ### CounterPack1 (candidate defect D27): the property fails on the unchanged code -/
+/-! ### CounterPack1, historical (D27, fixed in the code since): fragments as first found / as fixed.
+    The statement for the code AS IT IS is `C03Gen.agree_CounterPack1` (whole pack, generated layout with
+    the meter sections filled in) + `pack_roundtrip`; the `_partial` theorems below speak of single
+    sections only and are kept as the record of what was wrong. -/
 
-/-- full statement (does NOT hold for the code as found): the POid-meter entry round-trips.
-    Proved for the writer with the proposed fix: -/
+/-- the POid-meter entry round-trips with the fixed writer (one section, not the whole pack): -/
 theorem counter_poid_roundtrip_partial :
     agrees Counter.poidEntry.wFixed Counter.poidEntry.r = true := by decide
 
@@ -288,6 +299,33 @@ example : (demoR2.read "" env0 (demoW2.write env0 "" demoX2 ++ [5])).map (fun (o
     = some (7, [5]) := by decide +kernel
 
 example : (keys (demoL.expect env0 "" demoX)).Nodup := by decide +kernel
+
+/-- the well-formedness hypothesis of `pack_roundtrip` / `pack_prefix_fails` / `decode_into_used` is met
+    (long header form, negative numbers, a table with rows) -/
+theorem demo_wf : demoL.WF valueRT env0 "" demoX := by
+  have hc : countOf "" "T" demoX = 2 := by decide +kernel
+  have e1 : demoX ("" ++ "Seq") = .int (-5) := by rfl
+  have e2 : demoX ("" ++ "Name") = .bytes [104, 105] := by rfl
+  have e3 : demoX (elemPfx "" "T" 0 ++ "k") = .int 1 := by rfl
+  have e4 : demoX (elemPfx "" "T" 1 ++ "k") = .int (-1) := by rfl
+  simp only [demoL, L.WF, hc, e1, e2]
+  refine ⟨by decide +kernel, ?_, ?_, ?_, ?_, ?_, ?_, ?_, trivial⟩
+  · simp [Layout.Prim.wf]
+  · simp [Layout.Prim.wf, inRange, modulus]
+  · simp [rngOk, Rng.ok, inRange, modulus]
+  · simp [Layout.Prim.wf]
+  · simp [rngOk]
+  · simp [Layout.Prim.wf, inRange, modulus]
+  · intro i hi
+    have : i = 0 ∨ i = 1 := by omega
+    rcases this with rfl | rfl
+    · rw [e3]; simp [Layout.Prim.wf, rngOk, Rng.ok, inRange, modulus]
+    · rw [e4]; simp [Layout.Prim.wf, rngOk, Rng.ok, inRange, modulus]
+/-- … so the generic theorems have instances -/
+example : ∃ E', demoR.read "" env0 (demoL.write env0 "" demoX ++ [42]) = some (demoL.expect env0 "" demoX, E', [42]) :=
+  pack_roundtrip demoL demoR (by decide) env0 "" demoX [42] demo_wf
+example (q s : Bytes) (hs : s ≠ []) (hq : q ++ s = demoL.write env0 "" demoX) : demoR.read "" env0 q = none :=
+  pack_prefix_fails demoL demoR (by decide) (by decide) env0 "" demoX demo_wf q s hs hq
 
 example : (⟨300, 1, 7, 0, 99⟩ : Hdr).WF := by decide
 example : encHeader ⟨0, 1, 0, 0, 2⟩ = [0, 0, 0, 0, 1, 0, 0, 0, 0, 0, 0, 0, 2] := by decide
